@@ -113,6 +113,7 @@ var properties = map[string][]harnessSpec{
 		{Name: "chord.VerifC16LookupHistory", Quick: map[string]int{"C16.history": 2}, Thorough: map[string]int{"C16.history": 3}, Marks: end},
 		{Name: "cmd.VerifC16ChordFiles", Marks: end},
 		{Name: "cmd.VerifC16AttrFiles", Marks: end},
+		{Name: "cmd.VerifC16BrokenDictWrite", Marks: end},
 		{Name: "chord.VerifC16Builtins", Marks: end},
 		{Name: "chord.VerifC16AttrNames", Marks: end},
 		{Name: "chord.VerifC16UserDict", Quick: map[string]int{"C16.maxUser": 2}, Thorough: map[string]int{"C16.maxUser": 3}, Marks: []string{"end", "rejected", "accepted"}, MustTerminate: true},
